@@ -1349,7 +1349,8 @@ class Node:
         answer.auth_application_id = list(self.auth_application_ids)
         answer.acct_application_id = list(self.acct_application_ids)
 
-        cer_origin_host = message.origin_host.decode().lower()
+        # a name that is not even valid text cannot be one of our peers
+        cer_origin_host = message.origin_host.decode(errors="replace").lower()
 
         if cer_origin_host not in self.peers:
             self.logger.warning(
